@@ -128,6 +128,15 @@ def gen_categorical(rng, spec, cfg, closure_names, i):
     else:
         return None
     choices = [c for c in choices if c != cur]
+    # envelope: the packaged benchmark data has no row for (rust-actix-sqlx, mysql); that allowed combination makes
+    # the look-up raise IndexError - generated as a recomputation fault (C15), not as an ordinary edit
+    if attr == "implementation_details" and spec["objs"][o["attrs"]["service"][1]]["attrs"]["technology"][1] == "rust-actix-sqlx":
+        choices = [c for c in choices if c[1] != "mysql"]
+    if attr == "technology" and any(spec["objs"][m]["cls"] == "WebApplicationJob"
+                                    and spec["objs"][m]["attrs"]["service"][1] == name
+                                    and spec["objs"][m]["attrs"]["implementation_details"][1] == "mysql"
+                                    for m in spec["order"]):
+        choices = [c for c in choices if c[1] != "rust-actix-sqlx"]
     if not choices:
         return None
     return {"op": "set", "obj": name, "attr": attr, "value": rng.choice(choices), "src": rng.choice(gen.SOURCES),
